@@ -518,7 +518,12 @@ async fn exec_verify(cs: usize, x: char, y: Option<char>, damage: &str) -> Vec<F
     if parts[0] != "none" {
         let k: usize = parts[1].parse().expect("harness: k");
         let key = slots[&'B'].keys[k].clone();
-        let mut t = store.get(&key).expect("harness: chunk present before damage");
+        // the k-th chunk of the written bytes (ghost chunking) must be stored: its absence is itself a failure
+        let Ok(mut t) = store.get(&key) else {
+            st.req(O_VF, false, || format!("chunk {k} of the bytes written to B ({}) is not in the store after put/finish", short(&key)));
+            st.into_findings(&format!("chunk {cs}, B={x} C={y:?}, {damage}: "), &mut out);
+            return out;
+        };
         match parts[0] {
             "flip" => {
                 let j: usize = parts[2].parse().expect("harness: j");
